@@ -7,6 +7,7 @@ Model side: lean/PyroModel/Batch.lean driven by drv_c11 with the same tables.
 """
 import json
 import os
+import re
 import shutil
 import tempfile
 import threading
@@ -26,15 +27,20 @@ SUITES = ["batch", "sequential"]
 RULE = ("a case = a generated finite-state reference object (1..4 states; per (state, method, argument) a row: next state + "
         "returned value or raised exception; state dependent availability of two dynamic members) + a call list of length "
         "0..12 (thorough: ..200) over exposed methods, unexposed / private / missing / dotted names and 9 argument shapes "
-        "(3 of them not fitting the signature) x serializer (serpent, json, marshal, msgpack) x normal/oneway x server type "
-        "(thread, multiplex), all from VERIF_SEED; each case runs once through a real BatchProxy and once call by call on a "
+        "(3 of them not fitting the signature), 16 return values (4 of them exception OBJECTS returned as plain values) and 11 "
+        "raised exceptions (3 of them instances no serializer can send, of types whose other instances can) x serializer (serpent, json, marshal, msgpack) x normal/oneway x server type "
+        "(thread, multiplex), all from VERIF_SEED; the two daemons live for the whole run, so every case runs behind the history of "
+        "all earlier ones (a failure is re-tried on fresh daemons and its history delta-debugged); ~2.5% of the oneway batches keep "
+        "their first member busy until the next request on the connection could have arrived; each case runs once through a real BatchProxy and once call by call on a "
         "fresh identical object, both over a unix socket against a real Daemon. Non-trivial = at least two calls reached "
         "their method in the batch run (so order and state carry-over matter); distinct = distinct (object tables, call "
         "list, serializer, mode, server type)")
 ASSUMPTIONS = [
     "the remote object is deterministic: its reaction depends only on its state and the call (the theorem's Obj parameter)",
-    "results and raised exceptions are transportable by the serializer in use (values of the generator's pool; builtin and "
-    "Pyro5.errors exception classes): a result that cannot be serialised fails the whole reply, which is outside C11's quantifier",
+    "results are transportable by the serializer in use (values of the generator's pool, incl. exception objects as values): a "
+    "RESULT that cannot be serialised fails the whole reply, which is outside C11's quantifier; a raised exception whose instance "
+    "cannot be serialised is inside (plain call and batch member both deliver the describing PyroError of _serializeException); "
+    "exception classes are builtin or Pyro5.errors classes (unknown classes are C07's subject)",
     "methods do not raise CommunicationError/SecurityError themselves (a single call then loses its reply by design; the batch "
     "delivers the exception) and do not return iterators (batch mode cannot stream)",
     "requests on one connection are served in order (used to observe the state after a oneway batch by a following normal call)",
@@ -65,14 +71,28 @@ ARGS = [
 ]
 GOOD_ARGS = (0, 1, 2, 3, 4, 5)
 BAD_ARGS = (6, 7, 8)
-VALUES = [None, 17, "txt", [1, "a"], (2, "b"), {"k": 1}, 2.5, True, "", [[], {}], -3, {"n": [1, (2,)]}]
+common.repo_on_path()
+from Pyro5 import errors as _pyro_errors   # noqa: E402  (this module is only imported by the runner, after VERIF_REPO is known)
+
+# ids 12..15: exception OBJECTS as ordinary return values (a validator returning the problem it found): the call
+# succeeds, the object must be yielded like any other result and the calls behind it must deliver theirs
+VALUES = [None, 17, "txt", [1, "a"], (2, "b"), {"k": 1}, 2.5, True, "", [[], {}], -3, {"n": [1, (2,)]},
+          ValueError("negative value", -1), KeyError("missing"), RuntimeError(), _pyro_errors.NamingError("unknown name")]
+RETURNED_EXC_VALUES = (12, 13, 14, 15)
+# an argument no serializer can transport: exceptions 9..11 carry it, so the INSTANCE cannot be sent although other
+# instances of the same types (1, 4, 5, E_NOROW) can; both the batch and the plain call must then deliver the
+# describing PyroError of Daemon._serializeException
+OPAQUE = object()
+N_EXC = 11
+UNSENDABLE = {"KeyError": 9, "ValueError": 10, "NamingError": 11}
 
 
 def _exc_pool():
     from Pyro5 import errors
     return {1: ValueError("e1"), 2: ZeroDivisionError("division by zero"), 3: IndexError("e3", 3),
             4: errors.NamingError("e4"), 5: KeyError("k5"), 6: RuntimeError(), 7: TypeError("e7"),
-            8: AssertionError("e8")}
+            8: AssertionError("e8"),
+            9: KeyError(OPAQUE), 10: ValueError("bad handle", OPAQUE), 11: errors.NamingError(OPAQUE)}
 
 
 def _norm(v):
@@ -115,8 +135,13 @@ def make_ref_class():
         def __init__(self):
             self.reset({}, {}, 0)
 
-        def reset(self, rows, dyn, q0):
+        def reset(self, rows, dyn, q0, hold=False):
             self.rows, self.dyn, self.q, self.log = rows, dyn, q0, []
+            # hold: the first executed call waits (briefly, bounded) for the NEXT request on the connection to show up.
+            # A server that serves a connection's requests in order cannot deliver that request before this call is
+            # over, so the wait just runs out; one that runs a oneway batch on the side lets sync() overtake it.
+            self.hold = threading.Event() if hold else None
+            self.sync_at = None
 
         def _run(self, n, x, y, k):
             # which argument shape arrived (after the serializer): positional y / keyword y / k
@@ -130,6 +155,8 @@ def make_ref_class():
                         break
                 if a >= 0:
                     break
+            if self.hold is not None and not self.log:
+                self.hold.wait(0.05)
             self.log.append((n, a))
             row = self.rows.get((self.q, n, a))
             if row is None:
@@ -162,6 +189,9 @@ def make_ref_class():
         @server.expose
         def sync(self):
             """does not touch the state; used to wait for a oneway batch (same connection, served in order)"""
+            self.sync_at = len(self.log)
+            if self.hold is not None:
+                self.hold.set()
             return "sync"
 
         def __getattr__(self, name):
@@ -195,7 +225,7 @@ SERVERS = ["thread", "multiplex"]
 class Env(object):
     """two real daemons (thread pool / multiplex) on unix sockets, each serving a batch target and a sequential target"""
 
-    def __init__(self):
+    def __init__(self, servers=None):
         common.repo_on_path()
         from Pyro5 import config, server, client, errors
         self.client, self.errors = client, errors
@@ -206,7 +236,7 @@ class Env(object):
         self.daemons, self.threads, self.objs, self.uris, self.px, self.bp = {}, {}, {}, {}, {}, {}
         saved = config.SERVERTYPE
         try:
-            for srv in SERVERS:
+            for srv in (servers or SERVERS):
                 config.SERVERTYPE = srv
                 d = server.Daemon(unixsocket=os.path.join(self.tmp, srv + ".sock"))
                 b, s = self.Ref(), self.Ref()
@@ -270,8 +300,14 @@ class Env(object):
                 return "E%d" % E_MISSING
         if isinstance(e, KeyError) and e.args == ("norow",):
             return "E%d" % E_NOROW
+        if name == "PyroError" and msg.startswith("Error serializing exception"):
+            # the fallback of Daemon._serializeException for an exception instance that cannot be sent
+            m = re.search(r"Original exception: <class '([\w.]+)'>", msg)
+            i = UNSENDABLE.get(m.group(1).split(".")[-1]) if m else None
+            if i is not None:
+                return "E%d" % i
         i = self.exc_ids.get((name, _key(e.args)))
-        if i is not None:
+        if i is not None and i not in UNSENDABLE.values():
             return "E%d" % i
         if isinstance(e, TypeError) and "argument" in msg:
             return "E%d" % E_ARITY
@@ -295,7 +331,7 @@ def run_batch(env, case, bypass=False):
     srv, ser, oneway = case["srv"], case["ser"], case["oneway"]
     b, _ = env.objs[srv]
     rows, dyn = _static_dyn(case)
-    b.reset(rows, dyn, case["q0"])
+    b.reset(rows, dyn, case["q0"], hold=bool(case.get("hold")) and oneway)
     pb, _ = env.proxies(srv, ser)
     bp = env.batch_proxy(srv, ser)
     for n, a in case["calls"]:
@@ -327,7 +363,8 @@ def run_batch(env, case, bypass=False):
             seen = "stream:%s:%s" % (",".join(env.val_id(v) for v in raw_vals) or "-", env.exc_id(exc) if exc is not None else "-")
             kind = "stream"
     line = "q=%d log=%s seen=%s" % (b.q, _fmt_log(b.log), seen)
-    return line, {"kind": kind, "vals": raw_vals, "exc": exc, "q": b.q, "log": list(b.log)}
+    return line, {"kind": kind, "vals": raw_vals, "exc": exc, "q": b.q, "log": list(b.log),
+                  "sync_at": b.sync_at if (oneway and kind != "submit") else None}
 
 
 def run_seq(env, case):
@@ -357,8 +394,11 @@ def run_seq(env, case):
     return line, {"vals": vals, "exc": exc, "q": s.q, "log": list(s.log)}
 
 
+_ADDR = re.compile(r"0x[0-9a-fA-F]+")
+
+
 def _exc_same(a, b):
-    return type(a) is type(b) and _key(a.args) == _key(b.args)
+    return type(a) is type(b) and _ADDR.sub("0x", _key(a.args)) == _ADDR.sub("0x", _key(b.args))
 
 
 def judge(env, case, bres, sres):
@@ -372,11 +412,22 @@ def judge(env, case, bres, sres):
                 "%s [%s]: submitting the batch raises %r on the client before anything is sent (dumpsCall with kwargs=None); "
                 "one by one the calls give %d result(s)%s" % (what, calls, bres["exc"], len(sres["vals"]),
                                                              "" if sres["exc"] is None else " then " + repr(sres["exc"])))
+    if bres["kind"] == "submit" and sres["exc"] is not None and type(sres["exc"]).__name__ == "PyroError" and \
+            str(sres["exc"]).startswith("Error serializing exception") and not _exc_same(bres["exc"], sres["exc"]):
+        return ("unsendable-exception-fails-whole-batch",
+                "%s [%s]: call %d raises an exception whose instance cannot be serialised; one by one the caller gets %d result(s) "
+                "and then the describing %r; the batch fails as a whole at submission with %r (results lost, not the call's own error)"
+                % (what, calls, len(sres["vals"]), len(sres["vals"]), sres["exc"], bres["exc"]))
     if bres["kind"] == "submit" and isinstance(bres["exc"], ValueError) and "unmarshallable" in str(bres["exc"]) and \
             not (sres["exc"] is not None and _exc_same(bres["exc"], sres["exc"])):
         return ("%s-unmarshallable-wrapper" % case["ser"],
                 "%s [%s]: batch() raises %r (the server cannot serialise the reply list holding the exception wrapper); "
                 "one by one the calls give %d result(s) then %r" % (what, calls, bres["exc"], len(sres["vals"]), sres["exc"]))
+    if bres.get("sync_at") is not None and bres["sync_at"] != len(sres["log"]):
+        return ("oneway-batch-overtaken-by-next-call",
+                "%s [%s]: the plain call made right after the oneway batch on the same proxy was executed when %d of the %d "
+                "member(s) that run one by one had been executed: the batch is not served in the connection's request order"
+                % (what, calls, bres["sync_at"], len(sres["log"])))
     if (bres["q"], bres["log"]) != (sres["q"], sres["log"]):
         nb, ns = len(bres["log"]), len(sres["log"])
         sig = "executed-after-failure" if nb > ns else ("executed-too-few" if nb < ns else "state-differs")
@@ -396,6 +447,14 @@ def judge(env, case, bres, sres):
         return None
     if bres["kind"] != "stream":
         return ("no-result-sequence", "%s [%s]: batch() returned %s" % (what, calls, bres["kind"]))
+    nb = len(bres["vals"])
+    if bres["exc"] is not None and nb < len(sres["vals"]) and isinstance(sres["vals"][nb], BaseException) and \
+            [_key(v) for v in bres["vals"]] == [_key(v) for v in sres["vals"][:nb]] and _exc_same(bres["exc"], sres["vals"][nb]):
+        return ("returned-exception-raised",
+                "%s [%s]: call %d succeeds and RETURNS the object %r (one by one it is returned and %d more result(s)%s follow); "
+                "the batch raises it at that position as if the call had failed, nothing behind it is delivered"
+                % (what, calls, nb, sres["vals"][nb], len(sres["vals"]) - nb - 1,
+                   "" if sres["exc"] is None else " and then %r" % (sres["exc"],)))
     if [_key(v) for v in bres["vals"]] != [_key(v) for v in sres["vals"]] or \
             [type(v) for v in bres["vals"]] != [type(v) for v in sres["vals"]]:
         return ("results-differ", "%s [%s]: batch yields %r, one by one %r" % (what, calls, bres["vals"][:14], sres["vals"][:14]))
@@ -430,7 +489,7 @@ def gen_case(rng, maxlen, sers=SERIALIZERS):
             for a in GOOD_ARGS:
                 if rng.random() < p_row:
                     if rng.random() < p_exc:
-                        rows.append([q, n, a, rng.randrange(K), "e", rng.randint(1, 8)])
+                        rows.append([q, n, a, rng.randrange(K), "e", rng.randint(1, N_EXC)])
                     else:
                         rows.append([q, n, a, rng.randrange(K), "o", rng.randrange(len(VALUES))])
     r = rng.random()
@@ -472,7 +531,7 @@ def gen_case(rng, maxlen, sers=SERIALIZERS):
             if kind == "exc" and alive:
                 # plant a raising row here (state changes before the raise)
                 rows[:] = [rw for rw in rows if (rw[0], rw[1], rw[2]) != (q, n, a)]
-                rows.append([q, n, a, rng.randrange(K), "e", rng.randint(1, 8)])
+                rows.append([q, n, a, rng.randrange(K), "e", rng.randint(1, N_EXC)])
                 rowmap[(q, n, a)] = tuple(rows[-1][3:])
         calls.append([n, a])
         # follow the reference semantics to know the state at the next position
@@ -487,7 +546,8 @@ def gen_case(rng, maxlen, sers=SERIALIZERS):
                     q = row[0] if row else q
                 else:
                     q = row[0]
-    return {"ser": rng.choice(sers), "oneway": rng.random() < 0.3, "srv": rng.choice(SERVERS), "K": K, "q0": case_q0,
+    oneway = rng.random() < 0.3
+    return {"ser": rng.choice(sers), "oneway": oneway, "hold": oneway and L >= 2 and rng.random() < 0.025, "srv": rng.choice(SERVERS), "K": K, "q0": case_q0,
             "dyn": dyn, "rows": rows, "calls": calls, "mode": mode}
 
 
@@ -517,8 +577,65 @@ def corpus_cases():
         for f in sorted(os.listdir(d)):
             if f.endswith(".json"):
                 c = json.load(open(os.path.join(d, f)))
-                out.append(c.get("case", c))
+                # one case, or "cases": a history (run in this order on the same daemons)
+                out += c["cases"] if "cases" in c else [c.get("case", c)]
     return out
+
+
+# ------------------------------------------------------------------------------------------------
+# histories: the daemons live for the whole run, so what a batch does may depend on the batches before it.
+# A failure is therefore re-tried on FRESH daemons, alone and then behind the earlier cases of the run, and the
+# earlier cases are cut down (delta debugging) to the few that are needed: the replay file is self-contained.
+# ------------------------------------------------------------------------------------------------
+_CASE_KEYS = ("ser", "oneway", "srv", "K", "q0", "dyn", "rows", "calls", "mode", "bypass", "hold")
+
+
+def _slim(case):
+    return {k: case[k] for k in _CASE_KEYS if k in case}
+
+
+def _verdict_on_fresh_daemon(case, history):
+    env = Env(servers=[case["srv"]])
+    try:
+        for h in history:
+            run_batch(env, h, bypass=bool(h.get("bypass")))
+            run_seq(env, h)
+        _, bres = run_batch(env, case, bypass=bool(case.get("bypass")))
+        _, sres = run_seq(env, case)
+        return judge(env, case, bres, sres)
+    finally:
+        env.close()
+
+
+def history_for(case, prior, sig, max_trials=60):
+    """-> (history, how): the earlier cases needed to make `case` fail with `sig` on fresh daemons"""
+    def fails(hist):
+        v = _verdict_on_fresh_daemon(case, hist)
+        return v is not None and v[0] == sig
+    if fails([]):
+        return [], "fails on a fresh daemon"
+    cand = [_slim(c) for c in prior if c["srv"] == case["srv"] and c["ser"] == case["ser"]][-400:]
+    if not cand or not fails(cand):
+        cand = [_slim(c) for c in prior if c["srv"] == case["srv"]][-800:]
+        if not cand or not fails(cand):
+            return None, "seen once in this run, NOT reproduced on fresh daemons (alone or behind the earlier cases)"
+    trials, n = 0, 2
+    while len(cand) >= 2 and trials < max_trials:
+        chunk = (len(cand) + n - 1) // n
+        reduced = False
+        for i in range(0, len(cand), chunk):
+            trial = cand[:i] + cand[i + chunk:]
+            trials += 1
+            if trial and fails(trial):
+                cand, n, reduced = trial, max(n - 1, 2), True
+                break
+            if trials >= max_trials:
+                break
+        if not reduced:
+            if n >= len(cand):
+                break
+            n = min(len(cand), n * 2)
+    return cand, "fails only after %d earlier batch(es) on the same daemon" % len(cand)
 
 
 def _run(ctx, name, n, maxlen, do_model, sers=SERIALIZERS):
@@ -529,6 +646,7 @@ def _run(ctx, name, n, maxlen, do_model, sers=SERIALIZERS):
     try:
         cases = corpus_cases() + [gen_case(rng, maxlen, sers) for _ in range(n)]
         lines, reals = [], []
+        done = []
         for case in cases:
             bline, bres = run_batch(env, case)
             sline, sres = run_seq(env, case)
@@ -547,6 +665,12 @@ def _run(ctx, name, n, maxlen, do_model, sers=SERIALIZERS):
                 pos = len(sres["vals"])
                 ctx.count("failpos:" + ("first" if pos == 0 else "last" if pos == len(case["calls"]) - 1 else "middle"))
             ctx.count("batch-seen:" + bres["kind"])
+            if case.get("hold") and case["oneway"]:
+                ctx.count("oneway-batch-with-next-call-waiting")
+            if any(isinstance(v, BaseException) for v in sres["vals"]):
+                ctx.count("returned-exception-object:" + ("followed-by-results" if not isinstance(sres["vals"][-1], BaseException) else "last-result"))
+            if sres["exc"] is not None and env.exc_id(sres["exc"]) in ("E9", "E10", "E11"):
+                ctx.count("unsendable-exception-instance:" + case["ser"] + (":oneway" if case["oneway"] else ""))
             if len(bres["log"]) >= 2:
                 ctx.nontriv([case["ser"], case["oneway"], case["srv"], case["q0"], case["dyn"], case["rows"], case["calls"]])
             # ---- D: the property on the real code
@@ -555,8 +679,10 @@ def _run(ctx, name, n, maxlen, do_model, sers=SERIALIZERS):
                 sig, desc = v
                 per_sig[sig] = per_sig.get(sig, 0) + 1
                 ctx.count("oracle-failure:" + sig)
-                if per_sig[sig] <= 3:
-                    ctx.fail(sig, desc, case)
+                if per_sig[sig] <= 2:
+                    hist, how = history_for(case, done, sig)
+                    ctx.count("oracle-failure-history:" + ("none" if hist == [] else "not-reproduced" if hist is None else "needed"))
+                    ctx.fail(sig, desc + " — " + how, dict(case, history=hist or []))
                 if sig.endswith("-kwargs-none"):
                     # look behind F11: same batch, kwargs={} instead of None on the client
                     _, bres2 = run_batch(env, case, bypass=True)
@@ -565,10 +691,11 @@ def _run(ctx, name, n, maxlen, do_model, sers=SERIALIZERS):
                         sig2, desc2 = v2
                         per_sig[sig2] = per_sig.get(sig2, 0) + 1
                         ctx.count("oracle-failure:" + sig2)
-                        if per_sig[sig2] <= 3:
+                        if per_sig[sig2] <= 2:
                             ctx.fail(sig2, "(behind F11, submitted with kwargs={}) " + desc2, dict(case, bypass=True))
             if len(ctx.samples) < 5 and 3 <= len(case["calls"]) <= 6 and sres["exc"] is not None and len(sres["vals"]) >= 1:
                 ctx.sample({"case": {k: case[k] for k in ("ser", "oneway", "srv", "q0", "calls")}, "batch": bline, "sequential": sline})
+            done.append(case)
             if do_model:
                 ml = model_lines(case, pre.get(case["ser"], 0))
                 lines += list(ml)
@@ -609,6 +736,11 @@ def replay(ctx, case):
         return 1
     env = Env()
     try:
+        for i, h in enumerate(c.get("history") or []):
+            hb, _ = run_batch(env, h, bypass=bool(h.get("bypass")))
+            run_seq(env, h)
+            print("earlier batch %d on the same daemon (%s): %s  ->  %s" % (
+                i + 1, h["ser"], " ".join("%s#%d" % (NAMES[n], a) for n, a in h["calls"]), hb))
         bline, bres = run_batch(env, c, bypass=bool(c.get("bypass")))
         sline, sres = run_seq(env, c)
         print("calls      :", " ".join("%s%r" % (NAMES[n], ARGS[a]) for n, a in c["calls"]))
